@@ -32,6 +32,7 @@ func genC04(t *rapid.T, tier string) C04Case {
 		Keys:       []string{core.KLK, core.KLK, core.KLK, core.KLK, core.KInt, core.KUint64, core.KString, core.KBytes, core.KStruct, core.KInt64, core.KUint},
 		Vals:       []string{core.VInt, core.VInt, core.VString, core.VBytes, core.VLong},
 		NoCustomV1: true,
+		BigOneIn:   12,
 	})
 	pool := cfg.Pool()
 	c := C04Case{Cfg: cfg}
@@ -44,8 +45,8 @@ func genC04(t *rapid.T, tier string) C04Case {
 	if tier == "thorough" {
 		maxOps = 120
 	}
-	c.HistA = append(core.GenFill(t, len(pool), len(pool)), core.GenProgram(t, c04Weights, maxOps, 2)...)
-	c.HistB = append(core.GenFill(t, len(pool), len(pool)), core.GenProgram(t, c04Weights, maxOps, 2)...)
+	c.HistA = append(core.GenFillCfg(t, cfg, len(pool)), core.GenProgram(t, core.WithBulk(c04Weights, cfg), maxOps, 2)...)
+	c.HistB = append(core.GenFillCfg(t, cfg, len(pool)), core.GenProgram(t, core.WithBulk(c04Weights, cfg), maxOps, 2)...)
 	c.PermA = rapid.Permutation(idx(len(pool))).Draw(t, "permA")
 	c.PermB = rapid.Permutation(idx(len(pool))).Draw(t, "permB")
 	return c
@@ -111,7 +112,7 @@ func c04History(c C04Case, hist []core.Op, perm []int, name string) (c04Result, 
 		var op core.Op
 		switch {
 		case inTarget && (!present || cur != want):
-			op = core.Op{Kind: core.OpInsert, K: ki, V: want}
+			op = core.Op{Kind: core.OpInsert, K: ki, V: want, Raw: true}
 		case !inTarget && present:
 			sel := 0
 			for _, k := range t.Model.Keys() {
@@ -120,7 +121,7 @@ func c04History(c C04Case, hist []core.Op, perm []int, name string) (c04Result, 
 				}
 				sel++
 			}
-			op = core.Op{Kind: core.OpDelete, K: sel}
+			op = core.Op{Kind: core.OpDelete, K: sel, Raw: true}
 		default:
 			continue
 		}
@@ -131,7 +132,7 @@ func c04History(c C04Case, hist []core.Op, perm []int, name string) (c04Result, 
 	}
 	for ki, v := range target { // permutations from old replay files may miss keys
 		if cur, ok := t.Model[ki]; !ok || cur != v {
-			if err := m.Step(core.Op{Kind: core.OpInsert, K: ki, V: v}); err != nil {
+			if err := m.Step(core.Op{Kind: core.OpInsert, K: ki, V: v, Raw: true}); err != nil {
 				res.aborted = true
 				return res, nil
 			}
